@@ -238,8 +238,11 @@ class SpecGen:
         cases = []
         for _ in range(r.randint(1, 3)):
             if self.cfg["case_param_cond"] and r.random() < 0.4:
-                pred = {"t": "param", "n": self.selector_leaf()}
-                self.unused.remove(pred["n"])
+                if r.random() < 0.5:
+                    pred = {"t": "param", "n": self.pick_hashable()}  # may be a dataset: a condition with a body behind it
+                else:
+                    pred = {"t": "param", "n": self.selector_leaf()}
+                    self.unused.remove(pred["n"])
             else:
                 pred = {"t": "eq", "v": r.choice(U.DISPATCH_VALUES)}
             cases.append([pred, self.pick_any()])
